@@ -23,7 +23,7 @@ ASSUMPTIONS = [
     "a rule object is only re-inserted while it is detached (inserting one object into two lists is not an edit the statement describes)",
     "restart compares rule kinds of rules whose own serialisation is non-empty (default preferences drop empty rules)",
 ]
-PROBES = ["ordered_add_with_comment_first", "charset_reset_through_encoding", "rule_moved_between_containers", "rejected_add", "sheet_text_replaced", "restart", "nested_insert", "property_object_from_other_block"]
+PROBES = ["ordered_add_with_comment_first", "charset_reset_through_encoding", "rule_moved_between_containers", "rejected_add", "sheet_text_replaced", "restart", "nested_insert", "property_object_from_other_block", "self_insertion_attempted"]
 
 TOP_ONLY = ("CHARSET_RULE", "IMPORT_RULE", "NAMESPACE_RULE")
 BODY = ("STYLE_RULE", "MEDIA_RULE", "PAGE_RULE", "FONT_FACE_RULE")
@@ -81,6 +81,7 @@ class World:
         cu.log.raiseExceptions = cfg["raise"]
         self.pool = []  # detached rule objects made by the harness
         self.removed = []  # objects the harness saw removed or replaced
+        self.removed_styles = []  # declaration blocks replaced through their rule
         self.check("init")
 
     # ------------------------------------------------------------------ containers
@@ -126,7 +127,7 @@ class World:
                 t = r.typeString
                 if depth > 0:
                     ct = c.typeString
-                    bad = ("CHARSET_RULE", "IMPORT_RULE", "NAMESPACE_RULE", "FONT_FACE_RULE", "MARGIN_RULE") if ct == "MEDIA_RULE" else ("CHARSET_RULE", "IMPORT_RULE", "NAMESPACE_RULE", "FONT_FACE_RULE", "PAGE_RULE", "MEDIA_RULE", "STYLE_RULE")
+                    bad = ("CHARSET_RULE", "IMPORT_RULE", "NAMESPACE_RULE", "FONT_FACE_RULE", "MARGIN_RULE", "VARIABLES_RULE") if ct == "MEDIA_RULE" else ("CHARSET_RULE", "IMPORT_RULE", "NAMESPACE_RULE", "FONT_FACE_RULE", "PAGE_RULE", "MEDIA_RULE", "STYLE_RULE")
                     if t in bad:
                         raise Viol("I3_nested_kinds", f"{where}:{t}-in-{ct}", f"after {where}: {t} inside {ct}")
                     if r.parentRule is not c:
@@ -146,6 +147,9 @@ class World:
                             raise Viol("I4_parent_links", f"{where}:property.parent", f"after {where}: property {p.name} of {t} has parent {p.parent!r}")
                 if t == "IMPORT_RULE" and r.styleSheet is not None and r.styleSheet.ownerRule is not r:
                     raise Viol("I4_parent_links", f"{where}:import.ownerRule", f"after {where}: imported sheet's ownerRule is {r.styleSheet.ownerRule!r}")
+        for st_, how in self.removed_styles:
+            if st_.parentRule is not None and getattr(st_.parentRule, "style", None) is not st_:
+                raise Viol("I4_removed_objects_name_none", f"{how}:style", f"after {where}: a declaration block replaced by {how} still names its former rule as parentRule")
         inlists = self.contained(everywhere=True)
         for obj, how in self.removed:
             if id(obj) in inlists:
@@ -230,7 +234,11 @@ class World:
             else:
                 idx = op["index"]
                 idx = -1 if idx < 0 else idx % (n0 + 2)
-                kk, v = lib.call(c.insertRule, arg, idx)
+                if op.get("inorder") and op["c"][0] == "sheet":
+                    # documented: a proper place is looked for, the index is ignored
+                    kk, v = lib.call(c.insertRule, arg, idx % (n0 + 1), True)
+                else:
+                    kk, v = lib.call(c.insertRule, arg, idx)
             accepted = kk == "ok" and len(c.cssRules) > n0
             if accepted:
                 self.stats["accepted"] += 1
@@ -284,7 +292,10 @@ class World:
                 return "norule"
             r = rules[op["i"] % len(rules)]
             oldsub = list(r.cssRules) if hasattr(r, "cssRules") else []
+            oldstyle = getattr(r, "style", None)
             kk, v = lib.call(setattr, r, "cssText", op["text"])
+            if kk == "ok" and oldstyle is not None and getattr(r, "style", None) is not oldstyle:
+                self.removed_styles.append((oldstyle, "rule.cssText"))
             if kk == "ok":
                 newsub = list(r.cssRules) if hasattr(r, "cssRules") else []
                 for o in oldsub:
@@ -294,6 +305,34 @@ class World:
                 out = "set"
             else:
                 out = "rejected:" + lib.ename(v)
+        elif k == "insert_self":
+            # a rule holding rules is asked to hold itself (or an ancestor): must be refused
+            s = self.sheets[op["s"] % len(self.sheets)]
+            holders = [r for r, _, _ in flat(s) if r.typeString in ("MEDIA_RULE",)]
+            if not holders:
+                return "noholder"
+            inner = holders[op["i"] % len(holders)]
+            outer = inner
+            for _ in range(op["up"]):
+                if outer.parentRule is not None:
+                    outer = outer.parentRule
+            kk, v = lib.call(inner.insertRule, outer)
+            self.stats["probe:self_insertion_attempted"] += 1
+            if kk == "ok" and any(x is outer for x in inner.cssRules):
+                raise Viol("I4_parent_links", "insert_self:accepted", f"an @media rule accepted {'itself' if outer is inner else 'its ancestor'} as a nested rule")
+            out = "rejected" if kk != "ok" else "ignored"
+        elif k == "rule_style":
+            s = self.sheets[op["s"] % len(self.sheets)]
+            rules = [r for r, _, _ in flat(s) if getattr(r, "style", None) is not None]
+            if not rules:
+                return "norule"
+            r_ = rules[op["i"] % len(rules)]
+            old = r_.style
+            kk, v = lib.call(setattr, r_, "style", op["text"])
+            if kk == "ok" and r_.style is not old:
+                self.removed_styles.append((old, "rule.style"))
+                self.stats["accepted"] += 1
+            out = "set" if kk == "ok" else "rejected:" + lib.ename(v)
         elif k in ("decl_text", "decl_setprop"):
             s = self.sheets[op["s"] % len(self.sheets)]
             styles = [r.style for r, _, _ in flat(s) if getattr(r, "style", None) is not None]
@@ -382,7 +421,11 @@ def gen_op(r, w, i):
     if i >= cfg["n_ops"]:
         return None
     bad = cfg["bad_rate"]
-    k = r.choice(["insert", "insert", "insert", "add", "add", "delete", "delete", "sheet_text", "rule_text", "encoding", "ns_set", "ns_del", "make", "move", "move", "restart", "decl"])
+    k = r.choice(["insert", "insert", "insert", "add", "add", "delete", "delete", "sheet_text", "rule_text", "encoding", "ns_set", "ns_del", "make", "move", "move", "restart", "decl", "insert_self", "rule_style"])
+    if k == "insert_self":
+        return {"op": k, "s": r.randrange(0, 2), "i": r.randrange(0, 6), "up": r.choice([0, 0, 1, 2])}
+    if k == "rule_style":
+        return {"op": k, "s": r.randrange(0, 2), "i": r.randrange(0, 12), "text": G.decl_block(r, n=r.choice([1, 2]), bad=bad)}
     if k == "decl":
         return {"op": r.choice(["decl_text", "decl_setprop"]), "s": r.randrange(0, 2), "i": r.randrange(0, 12), "j": r.randrange(0, 4), "text": G.decl_block(r, n=r.choice([1, 2, 3]), bad=bad)}
     if k == "make":
@@ -392,6 +435,7 @@ def gen_op(r, w, i):
         op = {"op": k, "c": _container(r), "text": _rule_text(r, bad)}
         if k == "insert":
             op["index"] = r.randrange(-1, 8)
+            op["inorder"] = r.random() < 0.25
         return op
     if k == "move":
         op = {"op": r.choice(["insert", "add"]), "c": _container(r), "handle": r.randrange(0, 8)}
